@@ -462,7 +462,7 @@ pub fn run(cfg: RunCfg) {
         "overlapping deliveries are judged against both serial orders of the sequential model".into(),
     ];
     vh_core::section!(
-        rep, "updates", (2_000, 80_000), 16,
+        rep, "updates", (5_000, 80_000), 16,
         "non-trivial: (>=1 rejected/stale delivery and >=1 accepted update) or an overlapping pair; distinct by whole history",
         case_strategy, check
     );
